@@ -61,7 +61,7 @@ impl Prop for C07 {
             Leg {
                 name: "random",
                 kind: LegKind::Random {
-                    cases: tier.pick(3000, 45_000),
+                    cases: tier.pick(60000, 500000),
                 },
                 workers: 16,
                 build: Build::Normal,
